@@ -20,9 +20,9 @@ def creds_of(w):
 
 
 class Session:
-    def __init__(self, w):
+    def __init__(self, w, kdf=None):
         self.w = w
-        self.oracle = WireOracle(w, creds_of(w))
+        self.oracle = WireOracle(w, creds_of(w), kdf=kdf)
         self.log = []            # (sender, bytes, kind)
         self.kinds = []
 
